@@ -1,6 +1,9 @@
 package remoting
 
 import (
+	"encoding/binary"
+	"fmt"
+	"io"
 	"net"
 	"time"
 
@@ -32,7 +35,16 @@ func (h *Handshake) Wait(conn net.Conn) error {
 		return err
 	}
 
-	if _, err := conn.Read(buf); err != nil {
+	// 握手报文为 4 字节大端长度 + 地址：必须按长度完整读取。单次 Read 可能只返回报文的一部分（TCP 拆包），
+	// 也不能多读（紧随其后的数据属于消息帧）
+	if _, err := io.ReadFull(conn, buf[:4]); err != nil {
+		return err
+	}
+	size := binary.BigEndian.Uint32(buf[:4])
+	if size > uint32(len(buf)-4) {
+		return fmt.Errorf("handshake too large: %d", size)
+	}
+	if _, err := io.ReadFull(conn, buf[4:4+size]); err != nil {
 		return err
 	}
 	reader := messages.NewReaderFromPool(buf)
